@@ -13,7 +13,7 @@ import FalconModel.HandlersRule
     quality <media_type> <header>           -> q <ten-thousandths> | err type | err range | unsupported
     best <c1,c2,..|none> <header>             -> m <hex> | err type | err range | unsupported
   <kvs>/<mapping> = hexkey:id,hexkey:id,... | -                                                               -/
-open Hd
+open Mh
 
 def hv (c : Char) : Nat := if c.isDigit then c.toNat - 48 else c.toNat - 87
 def unhexL (s : String) : List Char :=
@@ -81,7 +81,7 @@ def step (os : Objs) (line : String) : Objs × String :=
       let key := mkKey (unhex mt) (unhex dflt) (r == "1")
       -- a memo hit answers from the memo; only a miss evaluates the rule (and may leave the modelled fragment)
       if (s.cache.find? (·.1 == key)).isNone && ruleUnsupported s.data key then (os, "unsupported") else
-      let (s', out) := Hd.step true resolveRule s (.resolve key)
+      let (s', out) := Mh.step true resolveRule s (.resolve key)
       let rep := match out with
         | some (some h) => "h " ++ toString h
         | some none => if r == "1" then "415" else "none"
